@@ -221,6 +221,11 @@ func (t *Transport) decodeFromWithCompression(rd io.Reader) (int, []byte, error)
 	if err := frd.Close(); err != nil {
 		return 0, nil, err
 	}
+	// read the websocket message to its end: the inflater stops at the end of the deflate stream,
+	// and a backend may refuse the next message until this one was read to completion
+	if _, err := io.Copy(io.Discard, ird); err != nil {
+		return 0, nil, err
+	}
 	return ird.ReadBytes, m, nil
 }
 
@@ -239,6 +244,9 @@ func (t *Transport) decodeFromWithContextTakeover(rd io.Reader) (int, []byte, er
 		t.readWindowBuf.Next(t.readWindowBuf.Len() - t.compressConfig.WindowSize())
 	}
 	if err := frd.Close(); err != nil {
+		return 0, nil, err
+	}
+	if _, err := io.Copy(io.Discard, ird); err != nil {
 		return 0, nil, err
 	}
 	return ird.ReadBytes, m, nil
